@@ -122,14 +122,21 @@ PROPS = {
         "assumed": [],
     },
     "C04": {
-        "verus": [("tree_node", ["TreeNode.set_child", "lemma_sum"]), "azks_audit"],
+        "verus": [("tree_node", ["TreeNode.set_child", "lemma_sum"]), "azks_audit", "azks_walk"],
         "scope": "partial: batch_insert_nodes leaves the tree untouched for an empty batch (the recursive insertion and the root write are entered only with a non-empty set - "
                  "the auditor's start tree of an audit from epoch 0 depends on it) and advances the epoch by one; get_append_only_proof refuses every range with end <= start or end beyond the latest epoch, and for an accepted range returns exactly one proof per epoch "
-                 "start..end (epochs list = start, start+1, .., end-1; |proofs| = |epochs|; proof i = the walk for (start+i, start+i+1) from the root as of the latest epoch); set_child maintains (last_epoch, min_descendant_epoch) as max/min summaries of the descendants (with frame: nothing else changes; refusal exactly for a child that "
-                 "does not extend the parent) - the invariant the audit walk's pruning relies on. Correctness of the walk for all histories is not decided.",
+                 "start..end (epochs list = start, start+1, .., end-1; |proofs| = |epochs|; proof i = the walk for (start+i, start+i+1) from the root as of the latest epoch); "
+                 "the walk get_append_only_proof_helper itself (sequential branch, spawned task body and join, all under contract): what it returns equals walk_spec of the stored tree - a subtree not updated after s is reported by its root with the value its parent hashes (the tree root is not reported), "
+                 "a subtree whose oldest descendant is younger than e is skipped, a leaf in between is reported as inserted with its stored value, otherwise both children are walked; "
+                 "L-AUDIT (proved): on a stored tree whose epoch summaries bound its leaves, for EVERY s <= e the unchanged roots cover exactly the leaves born <= s and the inserted elements are exactly the leaves born in (s, e]; "
+                 "new_leaf_node gives a leaf both epochs = birth epoch; set_child maintains (last_epoch, min_descendant_epoch) as max/min summaries of the descendants (with frame: nothing else changes; refusal exactly for a child that "
+                 "does not extend the parent). Not decided: that re-inserting the reported elements into an empty tree reproduces the published root hashes (trie-insertion correctness of recursive_batch_insert_nodes), and the auditor's comparison itself (C09).",
         "trusted": ["NodeLabel::get_prefix_ordering as a function (its meaning is proved under C17)", "core::cmp::{max,min} assumed via cmp_spec",
-                    "the per-epoch walk get_append_only_proof_helper (async recursion with task spawning), preloading and storage reads are external"],
-        "assumed": [],
+                    "storage reads are a function of (database, key, reader epoch) during one proof generation (T6); a clone of the manager reads the same database",
+                    "tokio task model: a joined value is the value of the spawned future (spawn/JoinHandle are external_body); R-SPAWN hoists the async block verbatim into an associated async fn with a declared capture list",
+                    "R-REC: recursive calls of the walk use its own contract as induction hypothesis - partial correctness, termination not proved",
+                    "preloading (preload_audit_nodes) only warms the cache and is external"],
+        "assumed": ["the depth counter `level + 1` does not overflow (entry precondition level < u64::MAX; depth <= 256 because labels lengthen along a path - not proved)"],
     },
     "C07": {
         "verus": ["verify_history", ("verify_base", BASE_VERIFY_FNS), ("markers", ["get_marker_versions", "lemma_l1", "lemma_history_pins_latest", "lemma_next_is_future_marker", "find_max_index_in_skiplist", "get_bit_length", "get_marker_version_log2"])],
